@@ -438,6 +438,57 @@ type MonC10 struct {
 	BaseMonitor
 	Undecided string
 	Decided   bool
+	last      map[string]c10Upload // node -> its last successful upload
+	Justified int
+}
+
+type c10Upload struct {
+	inc  string
+	txn  int64
+	name string
+}
+
+// BucketOp: "an instance uploads only after a local application change, at
+// start-up, or at the configured forced interval" - judged for every upload
+// of the whole run. An upload is justified when it is the first one of its
+// incarnation (start-up), the same snapshot stored again (a retry), or when
+// the local application committed a transaction after the image of the
+// previous upload and not after this one.
+func (m *MonC10) BucketOp(f *Fleet, op *BucketOp) {
+	if op.Op != "store" || !op.Applied || op.Node == "" {
+		return
+	}
+	if f.Cfg.ForceInt > 0 || f.Cfg.Sweeper.Enabled {
+		return
+	}
+	data, ok := f.Bucket.Get(op.Name)
+	if !ok {
+		return
+	}
+	ref, err := RefDecode(data)
+	if err != nil {
+		return // C07
+	}
+	inc := ""
+	if i := strings.LastIndex(op.Task, "#"); i >= 0 {
+		inc = op.Task[i:]
+	}
+	if m.last == nil {
+		m.last = map[string]c10Upload{}
+	}
+	prev, had := m.last[op.Node]
+	m.last[op.Node] = c10Upload{inc: inc, txn: ref.Meta.LmdbTxnID, name: op.Name}
+	if !had || prev.inc != inc || prev.name == op.Name {
+		return
+	}
+	for _, tx := range f.AppHistory {
+		if tx.Node == op.Node && tx.Txn > prev.txn && tx.Txn <= ref.Meta.LmdbTxnID {
+			m.Justified++
+			return
+		}
+	}
+	f.Violate(Violation{"C10", "no-echo", "upload-without-local-change",
+		fmt.Sprintf("%s uploaded %s (image of LMDB transaction %d) although the local application committed nothing since its previous upload %s (transaction %d); no restart, no forced interval", op.Node, op.Name, ref.Meta.LmdbTxnID, prev.name, prev.txn)})
 }
 
 // RunQuiesce is the custom run of the fleet-quiesce profile.
